@@ -856,7 +856,9 @@ def run_ops(case, ctx: Ctx):
         ctx.equal("lazy.repeat.shape", gshape, tuple(want.shape))
         ctx.close("lazy.repeat", g, want, **tol(r))
     elif op["op"] == "unsqueeze":
-        dim = op["dim"]
+        # the generator counts batch dimensions from the recipe; a composite kernel whose parts carry no batch shape has fewer:
+        # the position is brought into the range of batch positions of the actual output
+        dim = min(op["dim"], nb) if op["dim"] >= 0 else max(op["dim"], -(nb + 3))
         want = D.unsqueeze(dim)
         pos_dim = dim if dim >= 0 else D.dim() + dim + 1
         ctx.label(f"op.unsqueeze.leading={pos_dim == 0}")
